@@ -14,7 +14,7 @@ RULE = ("conv probe: DATA conversations whose bodies contain bait command lines 
         "tier's token count, with and without size limit, under 4 read schedules; leftover input compared octet for "
         "octet; sched probe: forced order {backend returns early, then the rest of the message, the marker and the next commands arrive} in SMTP, LMTP and LMTP+LMTPSession. non-trivial = the stream contains a terminator look-alike or a bait line")
 THEOREMS = ["C02_only_marker", "C02_eof_means_marker", "C02_lookalikes", "data_monitor_accepts_model",
-            "C02_resume", "C02_resume_escapes", "C02_wf_fresh"]
+            "C02_resume", "C02_resume_escapes", "C02_wf_fresh", "C02_wf_invariant", "C02_resume_anywhere"]
 TOK = [b"\n.\n", b"\n.\r\n", b"\r\n.\n", b"\r.\r", b"\r\n.\r\n", b"a", b"MAIL FROM:<bait@x>\r\n", b".\r\n", b"\r\n"]
 nontrivial = lambda case, ans: dc.nontrivial_stream(case) if case.startswith('dr') else cc.nontrivial(case, ans)
 signature = lambda case, ans: dc.signature(case, ans) if case.startswith('dr') else cc.signature(case, ans)
